@@ -209,7 +209,7 @@ func drive(c *hx.Ctx, t *testing.T, prop string, prof Profile) {
 			c.Count("stress-skipped-after-hangs")
 			return
 		}
-		res := RunStress(p, 20*time.Second)
+		res := RunStress(p, 90*time.Second)
 		if len(res.C25) > 0 {
 			hangs++
 		}
